@@ -219,7 +219,7 @@ def fp_of(scn, key):
     i, f, c = key
     op = scn["ops"][i]
     if f.startswith("attr"):
-        return "addCookie/%s:%s" % (op["attrs"][int(f[4:])][0], c)
+        return "addCookie/attribute:%s" % c
     return "%s:%s" % (dict(FIELDS[op["op"]])[f], c)
 
 
@@ -290,18 +290,25 @@ def mutate(t, rng):
 def run(ctx):
     from harness.core import MachineryError
     from harness.adapters import c20_http as H
-    r = ctx.mc("HttpRespWireMC", ctx.pick("HttpRespWireMC.cfg", "HttpRespWireMC.thorough.cfg"))
+    # -coverage makes TLC two orders of magnitude slower on the recursive parser, so the vacuity guard is
+    # fed from <<"ACTION", name>> lines the MC spec prints the first time a worker takes each action.
+    r = ctx.mc("HttpRespWireMC", ctx.pick("HttpRespWireMC.cfg", "HttpRespWireMC.thorough.cfg"), coverage=False)
     if not r.ok:
         raise MachineryError("HttpRespWire oracle inconsistent: " + r.error + "\n" + "\n".join(r.prints[-3:]))
+    H.actions_from_prints(ctx, "HttpRespWireMC", r)
     ctx.require_actions("HttpRespWireMC", ["DoSetCodeOk", "DoSetCodeRefused", "DoSetHeaderOk", "DoSetHeaderRefused", "DoSetContentLength",
                                            "DoAddCookieOk", "DoAddCookieRefused", "DoWrite", "DoFinish"])
+    # negative control: a correct serialisation put among the wrong ones must violate OracleRejects
+    n = ctx.mc("HttpRespWireMC", "HttpRespWireMCNeg.cfg", coverage=False, must_pass=False, label="negative control")
+    if n.ok or n.kind != "invariant":
+        raise MachineryError("negative control: OracleRejects not evaluated (%s)" % (n.error or "no violation"))
 
     classes = ["ALPHA", "LB", "NUL", "CTL", "WS", "OBS", "SEMI", "EQ", "COLON", "COMMA", "DQ", "PUNCT", "TPUNCT", "DIGIT"]
-    scns = field_scns(ctx.rng, ctx.pick(2, 3), classes if not ctx.quick else classes[:12])
+    scns = field_scns(ctx.rng, ctx.pick(2, 3), classes if not ctx.quick else classes[:10])
     ctx.exhaustive = True
     ctx.extra["exhaustive_rule"] = "every sequence of <= %d octet-class symbols in each of 6 argument positions (reason, header name, header value, cookie key, cookie value, cookie attribute), one position at a time" % ctx.pick(2, 3)
     nfield = len(scns)
-    for _ in range(ctx.pick(1500, 40000)):
+    for _ in range(ctx.pick(900, 40000)):
         scns.append(random_scn(ctx.rng))
     traces = [run_scn(s) for s in scns]
     ctx.extra["per_field_exhaustive_scenarios"] = nfield
